@@ -48,6 +48,8 @@ CONFIGS = {
     "asan-dyn": ("g++", ASAN + WSM + ["-DSONIC_DYNAMIC_DISPATCH"]),
     "prod-dyn": ("g++", PROD + WSM + ["-DSONIC_DYNAMIC_DISPATCH"]),
     "tsan": ("clang++", ["-O1", "-g", "-fsanitize=thread"] + HSW),
+    # plain char unsigned (the ABI default on ARM / PowerPC, -funsigned-char on x86): code that tests "c >= 0" or indexes a table with a plain char
+    "asan-hsw-uchar": ("g++", ASAN + HSW + ["-funsigned-char"]),
     # g++'s ThreadSanitizer also instruments 32-byte vector loads (clang's ignores them)
     "tsan-gcc": ("g++", ["-O1", "-g", "-fsanitize=thread", "-pthread"] + HSW),
     "tsan-locked": ("clang++", ["-O1", "-g", "-fsanitize=thread", "-DSONIC_LOCKED_ALLOCATOR"] + HSW),
@@ -106,14 +108,15 @@ CHECKS = {
                 jobs=lambda t: J("ondemand", "asan-hsw", ["--prop", "C11"]) + J("ondemand", "prod-hsw", ["--prop", "C11"]) + J("ondemand", "prod-wsm", ["--prop", "C11"]) +
                 (J("ondemand", "asan-wsm", ["--prop", "C11"]) + J("ondemand", "prod-dyn", ["--prop", "C11"]) if t == "thorough" else []),
                 rule="every text (valid or not, incl. empty and every truncation) x path: GetOnDemand/ParseOnDemand on an exact-size heap block (ASan) and on a buffer ending on the last mapped byte / starting right after a PROT_NONE page (production build): no fault; success => slice is a sub-range of the input and offset <= len; failure => slice empty; and with the input placed as a view in front of readable quotes / closers / backslashes / openers the outcome must be the one of the exact-size placement. Evaluations count (text,path,placement) calls; non-trivial: text of >= 2 bytes."),
-    "C19": dict(level="exploration", engine="schemaenum", budget=dict(quick=300, thorough=3000),
+    "C19": dict(level="exploration", engine="schemaenum", budget=dict(quick=420, thorough=3000),
                 jobs=lambda t: J("schemaenum", "prod-hsw", []) + J("schemaenum", "asan-hsw", [], fills=[0x06, 0x0c] if t == "quick" else FILLS_T),
                 rule="all pairs (existing document E, valid text T) of duplicate-free values up to a token budget, plus re-spaced texts and repeated application (E,T1,T2): result of ParseSchema read back through the accessors must equal merge(E,T) (E's key set and order at every level where both sides are non-empty objects, T's value elsewhere); no error; ASan-clean for pool and freeing allocators under several heap-fill bytes."),
     "C20": dict(level="exploration", engine="lazyenum",
                 jobs=lambda t: J("lazyenum", "prod-hsw", []) + J("lazyenum", "asan-hsw", []) + (J("lazyenum", "prod-wsm", []) if t == "thorough" else []),
                 rule="all ordered pairs (target, source) of valid duplicate-free texts up to a token budget, keys spelled with and without escapes, plus re-spaced variants: Parse(UpdateLazy(t,s)) succeeds and is value-equal to the recursive merge model with keys matched by decoded value; inputs in exact-size heap buffers under ASan."),
     "C05": dict(level="exploration", engine="strenum",
-                jobs=lambda t: J("strenum", "prod-hsw", []) + J("strenum", "prod-wsm", []) + J("strenum", "asan-hsw", []) + (J("strenum", "prod-hsw-clang", []) if t == "thorough" else []),
+                jobs=lambda t: J("strenum", "prod-hsw", []) + J("strenum", "prod-wsm", []) + J("strenum", "asan-hsw", []) + J("strenum", "asan-hsw-uchar", ["--only", "S3_raw_bytes"], label="asan-hsw-uchar/raw-bytes") +
+                (J("strenum", "prod-hsw-clang", []) if t == "thorough" else []),
                 rule="string literals built from atom sequences / raw bytes / \\u escapes at every offset relative to the 16/32-byte blocks, as root, array value, object key and on-demand key, against the scalar reference decoder: accepted <=> reference accepts, decoded bytes equal; plus \\uH\\uL pairs directly through parseStringInplace (thorough: all 2^32)."),
     "C08": dict(level="exploration", engine="kernels",
                 jobs=lambda t: J("kernels", "prod-hsw", ["--prop", "C08"]) + J("kernels", "asan-hsw", ["--prop", "C08"]) + J("kernels", "prod-hsw-clang", ["--prop", "C08"]) +
@@ -130,16 +133,18 @@ CHECKS = {
                 J("serenum", "asan-hsw", ["--only", "T10_closes_after_strings_x_capacity"], label="asan-hsw/serialize-capacity-sweep") +
                 J("serenum", "asan-dyn", ["--only", "T10_closes_after_strings_x_capacity"], label="asan-dyn/serialize-capacity-sweep") +
                 J("serenum", "asan-hsw", ["--only", "TL_long_head_x_escape_run"], label="asan-hsw/serialize-long-head-x-escape-run") +
+                J("kernels", "asan-hsw-uchar", ["--prop", "C09"], label="asan-hsw-uchar/unsigned-plain-char") +
                 J("tsanrun", "tsan", ["--only", "TQ_quote_next_to_foreign_writes"], env={"TSAN_OPTIONS": "halt_on_error=1:exitcode=66:report_signal_unsafe=0"}, label="tsan/quote-next-to-foreign-writes") +
                 J("tsanrun", "tsan-gcc", ["--only", "TQ_quote_next_to_foreign_writes"], env={"TSAN_OPTIONS": "halt_on_error=1:exitcode=66:report_signal_unsafe=0"}, label="tsan-gcc/quote-next-to-foreign-writes") +
                 (J("kernels", "asan-wsm", ["--prop", "C09"]) + J("kernels", "prod-dyn", ["--prop", "C09"], label="prod-dyn/dispatched") if t == "thorough" else []),
-                budget=dict(quick=400, thorough=3000),
+                budget=dict(quick=640, thorough=3000),
                 rule="internal::Quote on every length 0..100 with every byte value at every position and two special bytes at all position pairs; output validated byte by byte (verbatim copies, correct escapes, length <= 6n+2); production build: source ending 0..64 bytes before an unmapped page with three different in-page tails (output must not depend on them), destination exactly 6n+35 bytes before an unmapped page; ASan: exact-size heap source and destination. Long strings (one special byte at every position up to 4097 bytes). Three further jobs serialise documents whose allocator places every block (copied strings own exactly len+1 bytes) directly in front of an inaccessible page. Two ThreadSanitizer jobs (clang and gcc builds): one thread serialises a string view of n bytes (n in 0..99, four alignments) of a shared arena while another thread stores to the bytes right behind it - any read outside the view is a reported race."),
     "C14": dict(level="exploration", engine="kernels",
                 jobs=lambda t: J("kernels", "prod-hsw", ["--prop", "C14"]) + J("kernels", "asan-hsw", ["--prop", "C14"]) + J("kernels", "prod-wsm", ["--prop", "C14"]) + (J("kernels", "prod-dyn", ["--prop", "C14"]) if t == "thorough" else []),
                 rule="InlinedMemcmpEq == (memcmp==0) and sign(InlinedMemcmp)==sign(memcmp) for every length, every first-difference index, sign-sensitive byte pairs, a later opposite difference, both operands placed independently 0..40 bytes before an unmapped page / at every start offset mod 32; FindMember/HasMember with and without the lookup map agree with byte equality."),
     "C04": dict(level="exploration", engine="numenum",
-                jobs=lambda t: J("numenum", "prod-hsw", []) + J("numenum", "asan-hsw", []) + (J("numenum", "prod-wsm", []) + J("numenum", "prod-hsw-clang", []) if t == "thorough" else []),
+                jobs=lambda t: J("numenum", "prod-hsw", []) + J("numenum", "asan-hsw", []) + J("schemaenum", "prod-hsw", ["--only", "SZ_scalar_over_scalar"], label="prod-hsw/numbers-through-ParseSchema") +
+                (J("numenum", "prod-wsm", []) + J("numenum", "prod-hsw-clang", []) if t == "thorough" else []),
                 rule="number spellings of families N1..N6 parsed as root, array element and object member: integer that fits -> exact integer kind; otherwise IsDouble with the bit pattern of glibc strtod; overflow -> kParseErrorInfinity. For the halfway families (exact midpoints between adjacent doubles, one unit below/above, re-spelled with the point at every position and up to 1100 mantissa digits) the expected double is computed exactly by big-integer arithmetic in the harness and glibc is cross-checked against it."),
     "C07": dict(level="exploration", engine="ftoaenum",
                 jobs=lambda t: J("ftoaenum", "prod-hsw", []) + (J("ftoaenum", "prod-hsw-clang", ["--only", "D1_exponent_x_pattern"], label="prod-hsw-clang/D1") if t == "thorough" else []) + (J("ftoaenum", "asan-hsw", ["--only", "D2_decimal_table_rows"]) + J("ftoaenum", "asan-hsw", ["--only", "D3b_format_switch_points"], label="asan-hsw/D3b") +
@@ -169,6 +174,7 @@ CHECKS = {
     "C06": dict(level="exploration", engine="serenum",
                 jobs=lambda t: J("serenum", "prod-hsw", []) + J("serenum", "asan-hsw", []) + J("domexplore", "prod-hsw", ["--only", "M_pool_nestedmap"], label="prod-hsw/domexplore-states") +
                 J("serenum", "asan-dyn", ["--only", "T6_fill_x_expanding_string"], label="asan-dyn/fill-x-expanding-string") + J("serenum", "asan-dyn", ["--only", "T10_closes_after_strings_x_capacity"], label="asan-dyn/capacity-sweep") +
+                J("serenum", "asan-hsw-uchar", ["--only", "T2_strings_all_bytes"], label="asan-hsw-uchar/strings-all-bytes") +
                 (J("serenum", "prod-wsm", []) if t == "thorough" else []),
                 budget=dict(quick=240, thorough=3000),
                 rule="documents parsed from every accepted text of the families, API-built strings of every byte value/length/position, boundary integers and doubles, and non-finite doubles at every position, each serialised into 25 write-buffer start states (fresh, reused, reused after larger/smaller output, WriteBuffer(c) for 12 small capacities, move-assigned / moved-from / move-constructed / swapped buffers of different capacities; exact-size reallocs under ASan): Serialize succeeds, all states give identical bytes, the output is accepted by the independent reference recogniser and denotes the same value with the same number kinds, Parse(output) is == the original, re-serialising gives identical bytes, ToString is NUL-terminated; non-finite -> kSerErrorInfinity and Dump()==''. Every state reached by the mutation-API BFS is round-tripped too (second job)."),
